@@ -84,7 +84,7 @@ ALTS = {
     'values': None,   # custom: separate cell
 }
 PER_CLASS = {
-    ('Posting', 'flag'): [None, '!', 'P'], ('Posting', 'number'): [None, D('1'), D('-2.50'), D('0'), D('-0.00')], ('Posting', 'currency'): [None, 'USD'],
+    ('Posting', 'flag'): [None, '!', 'P'], ('Posting', 'number'): [None, D('1'), D('-2.50'), D('0')], ('Posting', 'currency'): [None, 'USD'],
     ('Balance', 'number'): [D('1'), D('-2.50')], ('Amount', 'number'): [D('1'), D('-2.50'), D('0'), D('-0.00'), D('-123456789012.123456789012345678')], ('Tolerance', 'number'): [D('0.01')],
     ('UnitPrice', 'number'): [None, D('3')], ('TotalPrice', 'number'): [None, D('3')], ('UnitPrice', 'currency'): [None, 'GBP'], ('TotalPrice', 'currency'): [None, 'GBP'],
     ('CostSpec', 'currency'): [None, 'EUR'], ('CostSpec', 'date'): [None, DT(2000, 1, 2), DT(33, 1, 2)], ('CompoundAmount', 'currency'): ['EUR'],
